@@ -10,8 +10,20 @@
 // build: g++ -std=c++17 -fopenmp -DDIMV=<d> -DPERIODICV=<p> -I/repo/src replay_omp.cpp   (links libgomp but never calls it)
 #include "mockomp.hpp"
 #include "fmmrun.hpp"
+#ifndef RUNTIMEV
+#define RUNTIMEV 0        // 0 OpenMP (GOMP ABI mock), 1 Specx (mock Legacy/SpRuntime.hpp)
+#endif
+#if RUNTIMEV == 1
+#include "algorithms/smspecx/tbfsmspecxalgorithm.hpp"
+#include "algorithms/smspecx/tbfsmspecxalgorithmtsm.hpp"
+template <class R, class K, class S> using TaskAlgo = TbfSmSpecxAlgorithm<R, K, S>;
+template <class R, class K, class S> using TaskAlgoTsm = TbfSmSpecxAlgorithmTsm<R, K, S>;
+#else
 #include "algorithms/openmp/tbfopenmpalgorithm.hpp"
 #include "algorithms/openmp/tbfopenmpalgorithmtsm.hpp"
+template <class R, class K, class S> using TaskAlgo = TbfOpenmpAlgorithm<R, K, S>;
+template <class R, class K, class S> using TaskAlgoTsm = TbfOpenmpAlgorithmTsm<R, K, S>;
+#endif
 #include <tuple>
 #include <fstream>
 
@@ -139,7 +151,7 @@ int main(int argc, char** argv){
             if(s.mode == 0){
                 Tree tree(R.conf, R.spos, s.bs, s.ogpp != 0); R.registerCells<true,true>(tree); addRanges(tree, s.height, "", true, true, true);
                 RT.nthreads = 1 + (int)(lineNo % 2);      // the executor is built while fewer threads are available than at execution time
-                TbfOpenmpAlgorithm<Real, CKern, Space> algo(R.conf, s.stop);
+                TaskAlgo<Real, CKern, Space> algo(R.conf, s.stop);
                 RT.nthreads = sc.threads;
                 for(const Op& op : opsOf(s.hist)) if(op.kind == 0){ Replayer::Hashes a, b; R.hashTree<true,true,true>(tree, a); algo.execute(tree, op.arg); R.hashTree<true,true,true>(tree, b); R.checkWriteSet(a, b, op.arg); }
                 snapCells<true,true>(tree, s.height, got); snapRhs(tree, got);
@@ -150,7 +162,7 @@ int main(int argc, char** argv){
                 TreeTsm tree(R.conf, R.spos, R.tpos, s.bs, s.ogpp != 0); SrcView S{tree}; TgtView T{tree}; R.registerCells<true,false>(S); R.registerCells<false,true>(T);
                 addRanges(S, s.height, "s", true, false, false); addRanges(T, s.height, "t", false, true, true);
                 RT.nthreads = 1 + (int)(lineNo % 2);
-                TbfOpenmpAlgorithmTsm<Real, Kern, Space> algo(R.conf, s.stop);
+                TaskAlgoTsm<Real, Kern, Space> algo(R.conf, s.stop);
                 RT.nthreads = sc.threads;
                 for(const Op& op : opsOf(s.hist)) if(op.kind == 0) algo.execute(tree, op.arg);
                 { long nkt = 0; algo.applyToAllKernels([&](const auto&){ nkt++; }); rep.ok("WorkerKernelBound", key, nkt >= sc.threads, "fewer kernel copies than worker threads"); }
